@@ -366,6 +366,10 @@ Varable failures: {var_failed}
                     )
 
         if props and dimensions:
+            if variables:
+                # copyVariable lists every copied variable; prune the ones
+                # that cannot be listed (non-standard dimensions, long names)
+                out.getVarlist(update=True)
             out.updatetflag()
 
         return out
@@ -859,7 +863,6 @@ Varable failures: {var_failed}
             outf.updatetflag(overwrite=True)
         outf.updatemeta()
         return outf
-
 
     def stack(self, other, stackdim):
         """
